@@ -79,8 +79,8 @@ namespace glm
 			return value;
 
 		genType const prev = highestBitValue(value);
-		genType const next = prev << 1;
-		return (next - value) < (value - prev) ? next : prev;
+		genType const next = static_cast<genType>(prev << 1);
+		return static_cast<genType>(next - value) < static_cast<genType>(value - prev) ? next : prev;
 	}
 
 	template<length_t L, typename T, qualifier Q>
